@@ -145,22 +145,20 @@ class BTree(Entity):
         """Look up a key, yielding page read latency for each tree level."""
         self._total_reads += 1
 
-        node = self._root
         for _ in range(self._depth):
             self._total_page_reads += 1
             yield self._page_read_latency
 
-            if node.leaf:
-                idx = bisect.bisect_left(node.keys, key)
-                if idx < len(node.keys) and node.keys[idx] == key:
-                    return node.values[idx]
-                return None
-
-            # Internal node: find child
+        # Descend after the page reads: a node pointer held across the yields
+        # goes stale when a concurrent put splits that node.
+        node = self._root
+        while not node.leaf:
             idx = bisect.bisect_right(node.keys, key)
             node = node.children[idx]
 
-        # Should not reach here, but handle edge case
+        idx = bisect.bisect_left(node.keys, key)
+        if idx < len(node.keys) and node.keys[idx] == key:
+            return node.values[idx]
         return None
 
     def get_sync(self, key: str) -> Any | None:
